@@ -18,13 +18,16 @@ def altOfList : List Re → Re
   | [r] => r
   | r :: rs => .alt r (altOfList rs)
 
-def quant (k : GKind) (cap : Bool) (inner : Re) : Re :=
+def quant (k : GKind) (cap : Capt) (inner : Re) : Re :=
   let q : Re := match k with
     | .q => .opt (.grp inner)
     | .s => .star false (.grp inner)
     | .p => .plus (.grp inner)
-    | .a => if cap then inner else .grp inner
-  if cap then .cap q else q
+    | .a => if cap = .no then .grp inner else inner
+  match cap with
+  | .no => q
+  | .yes => .cap q
+  | .erased => .grp q
 
 def catE' (a b : Re) : Re := if b = .eps then a else if a = .eps then b else .cat a b
 
